@@ -1212,7 +1212,12 @@ def mon_C10_me(case):
             if not modes:
                 out.append((i, f"C10 [me-removed] `{fw[0]} {what}` about {src} delivered on `me` to {sid} of {u} whose subscription is deleted"))
             elif not any(has(m, "P") for m in modes):
-                out.append((i, f"C10 [me-muted:{what}] `{fw[0]} {what}` about {src} delivered on `me` to {sid} of {u} whose permissions {modes} lack presence"))
+                tag = f"me-muted:{what}"
+                if what == "on" and w[0] == "mesub" and case.sess.get(w[1], {}).get("user") == src and \
+                        any(s2 == w[1] and f2.startswith("ctrl 200 me acs=") for s2, f2 in ln.meframes):
+                    # the other user's subscription to the own `me` was made by this request: announced with "on+en"
+                    tag = "me-muted:on:new-me-sub"
+                out.append((i, f"C10 [{tag}] `{fw[0]} {what}` about {src} delivered on `me` to {sid} of {u} whose permissions {modes} lack presence"))
             elif not any(has(g, "J") for g in givens):
                 # banned = the topic's managers took J away; a user who dropped J from the own request has left of the own accord
                 out.append((i, f"C10 [me-banned:{what}] `{fw[0]} {what}` about {src} delivered on `me` to {sid} of {u} who is banned (granted {givens})"))
@@ -1232,19 +1237,27 @@ def mon_C10_me(case):
                 if row["state"] != 0 or key in phantom:
                     continue
                 mine = row["subs"].get(ou)
+                if mine is None or mine["deleted"] or not has(eff(mine["want"], mine["given"]), "P") or \
+                        not has(eff(mine["want"], mine["given"]), "J"):
+                    continue        # not a member, muted, banned, or left by dropping J: told nothing but changes to the subscription
                 if key in ln.cache:
-                    # the loaded topic decides by what it holds in memory (that memory and store agree is C08's business)
+                    # the loaded topic decides by what it holds in memory, `me` loads its contacts from the stored rows: the clause
+                    # is judged where the two agree (that they do is C08's business: [offline-set])
                     mine = ln.cache[key]["users"].get(ou)
                 if mine is None or mine["deleted"] or not has(eff(mine["want"], mine["given"]), "P") or mine.get("chan"):
                     continue        # (a channel reader is not a member: channels do not report being online)
                 if not has(eff(mine["want"], mine["given"]), "J"):
-                    continue        # banned, or left by dropping J: told nothing but changes to the subscription
+                    continue
                 if key.startswith("P:"):
                     others = [x for x in key[2:].split(":") if x != ou]
                     if len(others) != 1:
                         continue
                     x = others[0]
-                    theirs = ln.cache[key]["users"].get(x) if key in ln.cache else row["subs"].get(x)
+                    theirs = row["subs"].get(x)
+                    if theirs is None or theirs["deleted"] or not has(eff(theirs["want"], theirs["given"]), "P") \
+                            or not has(eff(theirs["want"], theirs["given"]), "J"):
+                        continue
+                    theirs = ln.cache[key]["users"].get(x) if key in ln.cache else theirs
                     if theirs is None or theirs["deleted"] or not has(eff(theirs["want"], theirs["given"]), "P") \
                             or not has(eff(theirs["want"], theirs["given"]), "J"):
                         continue
